@@ -61,11 +61,20 @@ func (b *Bstr[T]) UnmarshalCBORStream(r io.Reader, o DecoderOptions, flattened i
 	if n > math.MaxInt64 {
 		return fmt.Errorf("bstr too long to decode")
 	}
-	r = io.LimitReader(r, int64(n))
+	content := &io.LimitedReader{R: r, N: int64(n)}
 
-	dec = NewDecoder(r)
+	dec = NewDecoder(content)
 	dec.DecoderOptions = o
-	return dec.Decode(&b.Val)
+	if err := dec.Decode(&b.Val); err != nil {
+		return err
+	}
+
+	// The byte string must be consumed in full. Otherwise whatever follows the
+	// item inside of it would be decoded as the next item after it.
+	if content.N != 0 {
+		return fmt.Errorf("bstr contains %d bytes of trailing data", content.N)
+	}
+	return nil
 }
 
 // ByteWrap is a Bstr that treats Bstr[[]byte] as Bstr[cbor.RawBytes]. While
@@ -105,20 +114,29 @@ func (b *ByteWrap[T]) UnmarshalCBORStream(r io.Reader, o DecoderOptions, flatten
 	if n > math.MaxInt64 {
 		return fmt.Errorf("bytewrap too long to decode")
 	}
-	r = io.LimitReader(r, int64(n))
+	content := &io.LimitedReader{R: r, N: int64(n)}
 
 	if bs, ok := any(&b.Val).(*[]byte); ok {
 		if n >= MaxArrayDecodeLength {
 			return fmt.Errorf("byte array exceeds max size: %d", n)
 		}
 		*bs = make([]byte, n)
-		_, err := io.ReadFull(r, *bs)
+		_, err := io.ReadFull(content, *bs)
 		return err
 	}
 
-	dec = NewDecoder(r)
+	dec = NewDecoder(content)
 	dec.DecoderOptions = o
-	return dec.Decode(&b.Val)
+	if err := dec.Decode(&b.Val); err != nil {
+		return err
+	}
+
+	// The byte string must be consumed in full. Otherwise whatever follows the
+	// item inside of it would be decoded as the next item after it.
+	if content.N != 0 {
+		return fmt.Errorf("bytewrap contains %d bytes of trailing data", content.N)
+	}
+	return nil
 }
 
 // X509Certificate is a newtype for x509.Certificate implementing proper CBOR
